@@ -25,6 +25,7 @@ var c11Inputs = []c11Input{
 	{"var x = 1\nprint x + 2\nprint $\n", 28},         // late lexical failure
 	{"def t {\n ratio = 1.\n}\nprint 1\n", 18},         // lexical failure inside an open block
 	{"def t {\n def u {\n x = \"a\n}\n}\n", 25},         // unterminated string two blocks deep
+	{"print )\nprint )\nprint )\nprint )\nprint )\nprint )\nprint )\nprint )\nprint )\nprint )\nprint )\nprint )\nvar a = 1\nvar b = 2\nprint a + b * 3 - 4 / 5\nprint a\n", -1}, // many syntax errors, then many tokens
 }
 
 // C11_Script: every reader script of k reads (sizes 0 / 1 / 7 / rest, each
@@ -33,11 +34,15 @@ var c11Inputs = []c11Input{
 // exactly once, nothing is left running, a delivered read error is returned,
 // and reading stops soon after a lexical failure.
 func C11_Script() {
-	in := c11Inputs[verif.Choice("input", len(c11Inputs))]
+	in := c11Inputs[verif.Choice("input", 7)]
 	k := verif.Choice("reads", 3+verif.Tier())
 	var script []symio.Step
 	for i := 0; i < k; i++ {
-		n := []int{0, 1, 7, 1000}[verif.Choice("n", 4)]
+		sizes := []int{0, 1, 1000}
+		if verif.Tier() == 1 {
+			sizes = []int{0, 1, 7, 1000}
+		}
+		n := sizes[verif.Choice("n", len(sizes))]
 		var err error
 		switch verif.Choice("err", 3) {
 		case 1:
@@ -93,7 +98,7 @@ func C11_StopsReading() {
 
 // C11_Variants: InterpretFile and UnmarshalFile close exactly once too.
 func C11_Variants() {
-	in := c11Inputs[verif.Choice("input", len(c11Inputs))]
+	in := c11Inputs[verif.Choice("input", 7)]
 	n := []int{0, 1, 7, 1000}[verif.Choice("n", 4)]
 	var e error
 	switch verif.Choice("err", 3) {
@@ -113,5 +118,25 @@ func C11_Variants() {
 	if f.ErrDelivered() {
 		verif.Assert(err == errC11, "read error returned")
 	}
+	verif.Reach("returned")
+}
+
+// C11_ManyErrors: many syntax errors followed by many more tokens (the parser
+// must keep draining the lexer), read in chunks of 16 / 64 / all.
+func C11_ManyErrors() {
+	in := c11Inputs[7]
+	chunk := []int{16, 64, 1000}[verif.Choice("chunk", 3)]
+	var script []symio.Step
+	for i := 0; i*chunk < len(in.src); i++ {
+		script = append(script, symio.Step{N: chunk})
+	}
+	f := &symio.File{Data: []byte(in.src), Script: script, FileName: "f"}
+	out, log := &symio.Writer{}, &symio.Writer{}
+	_, err := bcl.ParseFile(f, bcl.OptOutput(out), bcl.OptLogger(log))
+	left := verif.Quiesce()
+	verif.Observe("closes", f.Closes)
+	verif.Assert(err != nil, "syntax errors reported")
+	verif.Assert(f.Closes == 1, "Close called exactly once")
+	verif.Assert(left == 0, "no goroutine of the call is left running or blocked")
 	verif.Reach("returned")
 }
